@@ -132,9 +132,22 @@ class Source:
     def find_fns(self, owner, name):
         return [f for f in self.fns if f.name == name and (owner is None or f.owner == owner)]
 
-    def fn(self, owner, name, trait=None):
+    def fn(self, owner, name, trait=None, _hops=0):
         c = [f for f in self.find_fns(owner, name) if f.body is not None and (trait is None or (f.trait or "").endswith(trait))]
-        return c[0] if len(c) >= 1 else None
+        if c:
+            return c[0]
+        # a function of the pinned tree that no longer exists under its name: when it had a single caller there, its body was most likely folded into
+        # that caller — what a rule looks for "in f" is then to be looked for in the caller (a rule that does not find it there still reports)
+        if owner is not None and trait is None and _hops < 3:
+            for fid, callers in _pinned_callers().items():
+                segs = fid.split("::")
+                if len(segs) >= 2 and segs[-1] == name and segs[-2] == owner and len(callers) == 1:
+                    cs = callers[0].split("::")
+                    if len(cs) >= 2:
+                        self.relocated = getattr(self, "relocated", {})
+                        self.relocated["%s::%s" % (owner, name)] = "%s::%s" % (cs[-2], cs[-1])
+                        return self.fn(cs[-2], cs[-1], None, _hops + 1)
+        return None
 
     # ------------------------------------------------------------ template registry
     def template_registry(self):
@@ -185,6 +198,21 @@ class Source:
 
 
 # ------------------------------------------------------------------ AST walking
+
+_PINNED_CALLERS = [None]
+
+
+def _pinned_callers():
+    """pinned function id -> pinned callers (tables/pinned_callers.json); {} when the table is missing"""
+    if _PINNED_CALLERS[0] is None:
+        import json as _json
+        p_ = os.path.join(os.path.dirname(os.path.dirname(os.path.abspath(__file__))), "tables", "pinned_callers.json")
+        try:
+            _PINNED_CALLERS[0] = _json.load(open(p_))
+        except Exception:  # noqa
+            _PINNED_CALLERS[0] = {}
+    return _PINNED_CALLERS[0]
+
 
 def _pinned_consts():
     """names of the string constants of the pinned tree (tables/pinned_consts.json); None when the table is missing"""
